@@ -205,6 +205,17 @@ func nearFlow(r *ev.Run, rng *gen.Rand, st nearStore, ledger *keyLedger, kind st
 	e.KS.Reset()
 	afterA := st.dump()
 	pathsA := changedPaths(before, afterA)
+	// the stored objects OF THIS CLIENT: those written while its keys were made whose path names it (a keystore-wide object
+	// that any key generation may touch is not this client's); if no path names the client (another layout), all of them
+	var named []string
+	for _, p := range pathsA {
+		if strings.Contains(p, string(aID)) {
+			named = append(named, p)
+		}
+	}
+	if len(named) >= 3 {
+		pathsA = named
+	}
 	secretsA := secretsOf(e.KS, aID, true)
 	if len(pathsA) < 3 || len(secretsA) < 8 {
 		panic(fmt.Sprintf("near-identity rig: keys of %q not as expected: stored=%v secrets=%d", aID, pathsA, len(secretsA)))
